@@ -29,7 +29,10 @@ CLAIM = dict(
           "function of its own arguments and meets specOK, and a kernel-evaluated witness shows that the code as written "
           "(in-place update of the default dict) leaks options into the next boot. Tied to rig/machine_control/boot.py, "
           "struct_file.py and MachineController.boot by exact event-trace correspondence (connect/send/sleep/close, "
-          "returned structs, exceptions, caller dictionaries) over generated boot histories; sark.struct and the boot "
+          "returned structs, exceptions, caller dictionaries) over generated boot histories in which EVERY returned "
+          "struct dictionary is kept and read again after every later boot, MachineController construction, "
+          "read_struct_file of another struct file and caller edit of another result, and judged by the same Lean "
+          "predicate (returnedOK with the options of the call that returned it); sark.struct and the boot "
           "constants are regenerated from the source on every run by an independent parser and the generated sv table "
           "is proved well formed."),
     design="3/C20",
@@ -42,14 +45,20 @@ THEOREMS = ["consts_documented", "sv_table_ok", "boot_sequence", "unswap_concat"
             "struct_pack_spec", "returned_defaults", "boot_meets_spec", "state_unchanged",
             "history_independent", "history_meets_spec", "fresh_process_default", "leak_witness"]
 
-RULE = ("histories of 1-6 boot() calls from one freshly loaded module: hosts/ports vary, images are the bundled "
-        "scamp.boot or random byte strings (every block count 1..32 in the thorough tier, lengths at block edges, "
-        "plus out-of-domain short / unaligned / oversize images), struct file = bundled sark.struct or a synthetic "
-        "table (well-formed, overlapping, overflowing, unpackable), options = none / board preset / random overrides "
-        "of any field via kwargs, a fresh sv_overrides dict or a caller dict reused across calls, edge and "
-        "out-of-range values, unknown names; clock values incl. t1 != t2 and > 2^32; a share of calls goes through "
-        "MachineController.boot. A history is non-trivial when it is in the property's domain and some call carries "
-        "options that a later call does not ask for (a leak would be visible); distinct = distinct canonical JSON")
+RULE = ("histories of 1-6 boot() calls from freshly loaded struct_file/boot modules: hosts/ports vary, images are the "
+        "bundled scamp.boot or random byte strings (every block count 1..32 in the thorough tier, lengths at block "
+        "edges, plus out-of-domain short / unaligned / oversize images), struct file = bundled sark.struct or a "
+        "synthetic table (well-formed, overlapping, overflowing, unpackable), options = none / board preset / random "
+        "overrides of any field via keywords, via a fresh sv_overrides dict, via a caller dict reused across calls, "
+        "or via both (incl. the same variable in both), edge and out-of-range values, 0 / False for variables whose "
+        "file default is non-zero, non-integer values, unknown names; clock values incl. t1 != t2 and > 2^32; a share "
+        "of calls goes through MachineController.boot. Between boots the caller constructs MachineControllers, "
+        "parses other struct files and edits results it was given; every result returned by boot() is KEPT, must "
+        "not share mutable objects with another result, and is re-read and re-judged after every later boot and "
+        "every such step (the replay carries the whole history incl. the steps). A history is non-trivial when it "
+        "is in the property's domain and either some call carries options that a later call does not ask for (a "
+        "leak would be visible) or a result obtained with options is read again after a later boot / step; "
+        "distinct = distinct canonical JSON")
 
 RESERVED = {"hostname", "boot_port", "scamp_binary", "sark_struct", "boot_delay", "post_boot_delay",
             "sv_overrides", "width", "height", "only_if_needed", "check_booted"}
@@ -154,6 +163,23 @@ def struct_text(table, rng):
     return "\n".join(out).encode()
 
 
+NONZERO_DEFAULT = None
+
+
+def lean_value(v):
+    """option values as the model sees them: bools are ints; a value struct.pack cannot take as an integer
+    (None, "", ...) fits no field, exactly like an integer that is out of range for every pack code"""
+    if isinstance(v, bool):
+        return int(v)
+    if isinstance(v, int):
+        return v
+    return 2 ** 70
+
+
+def lean_dict(d):
+    return [[k, lean_value(v)] for k, v in d]
+
+
 def gen_value(rng, pack):
     lo, hi = RANGE.get(pack, (0, 255))
     r = rng.random()
@@ -170,8 +196,15 @@ def gen_opts(rng, table, allow_reserved):
     d = []
     for f in rng.sample(fields, min(len(fields), rng.choice([0, 1, 1, 2, 3, 5]))):
         d.append([f[0], gen_value(rng, f[1])])
-    if rng.random() < 0.025:
-        d.insert(rng.randrange(len(d) + 1), [rng.choice(["bogus", "hw_version", "led2"]), 1])
+    # falsy values for variables whose file default is not zero (disable the watchdog, LEDs off, ...)
+    nz = [f for f in fields if f[4] != 0 and f[0] not in [k for k, _ in d]]
+    if nz and rng.random() < 0.35:
+        for f in rng.sample(nz, min(len(nz), rng.choice([1, 1, 2]))):
+            d.insert(rng.randrange(len(d) + 1), [f[0], rng.choice([0, 0, 0, False])])
+    if d and rng.random() < 0.02:
+        d[rng.randrange(len(d))][1] = rng.choice([None, ""])      # not an integer: struct.error
+    if rng.random() < 0.04:
+        d.insert(rng.randrange(len(d) + 1), [rng.choice(["bogus", "hw_version", "led2"]), rng.choice([1, 0])])
     return d
 
 
@@ -203,6 +236,11 @@ def gen_history(rng, force_len=None):
             c["sv"] = len(store) - 1
             if rng.random() < 0.5:
                 c["kwargs"] = gen_opts(rng, tab, False)
+                both = [p for p in store[-1] if p[0] not in RESERVED and p[0] not in [k for k, _ in c["kwargs"]]]
+                if both and rng.random() < 0.6:               # the same variable in both: the keyword wins
+                    k = rng.choice(both)
+                    pk = [f[1] for f in tab["fields"] if f[0] == k[0]]
+                    c["kwargs"].append([k[0], gen_value(rng, pk[0]) if pk else 0])
         elif n_store:
             c["sv"] = rng.randrange(n_store)                  # a caller dict reused across calls
             if rng.random() < 0.6:
@@ -213,8 +251,28 @@ def gen_history(rng, force_len=None):
         c["t2"] = t + rng.choice([0, 0, 1, 1, 2])
         if c["host"].startswith("127.") and rng.random() < 0.5:
             c["via"] = "controller"
+        c["after"] = gen_steps(rng, i, n_calls, tab)
         calls.append(c)
     return {"store": store, "calls": calls}
+
+
+def gen_steps(rng, i, n_calls, tab):
+    """what the caller does between this boot and the next: every kept result is re-checked after each step"""
+    steps = []
+    if rng.random() < 0.25:
+        steps.append({"do": "controller", "host": "127.0.0.%d" % rng.randrange(1, 9)})
+    if rng.random() < 0.2:
+        steps.append({"do": "read_struct", "table": None if rng.random() < 0.5 else gen_table(rng)})
+    names = [f[0] for f in tab["fields"]] or ["hw_ver"]
+    if rng.random() < 0.15:
+        steps.append({"do": "mutate", "target": rng.randrange(i + 1),
+                      "how": rng.choice(["defaults", "attrs", "dict", "fields", "all"]),
+                      "field": rng.choice(names), "value": rng.randrange(256)})
+    if i == n_calls - 1 and n_calls >= 2 and rng.random() < 0.85:
+        steps.append({"do": "mutate", "target": i, "how": "all", "field": rng.choice(names),
+                      "value": rng.randrange(1, 256)})
+    rng.shuffle(steps)
+    return steps
 
 
 # ------------------------------------------------------------ implementation
@@ -274,7 +332,64 @@ class FakeTime(object):
 
 def canon_struct(s):
     return [[k.decode("latin-1"), f.pack_chars.decode("latin-1"), f.offset, f.printf.decode("latin-1"),
-             f.default, f.length] for k, f in s.fields.items()]
+             lean_value(f.default), f.length] for k, f in s.fields.items()]
+
+
+def snapshot(structs):
+    """canonical deep copy of a {name: Struct} dictionary (nothing shared with the live objects)"""
+    try:
+        sv = structs.get(b"sv")
+        return {"sv": canon_struct(sv) if sv is not None else None,
+                "svmeta": [sv.size, sv.base] if sv is not None else None,
+                "others": sorted([n.decode("latin-1"), t.size, t.base, canon_struct(t)]
+                                 for n, t in structs.items() if n != b"sv")}
+    except Exception as e:      # noqa
+        return {"broken": repr(e)[:200]}
+
+
+def shared_objects(a, b):
+    """mutable objects two results have in common"""
+    out = []
+    if a is b:
+        out.append("dict")
+    sa = {id(x): n for n, x in a.items()}
+    for n, x in b.items():
+        if id(x) in sa:
+            out.append("Struct %r" % (n,))
+    fa = {id(x.fields): n for n, x in a.items() if hasattr(x, "fields")}
+    for n, x in b.items():
+        if hasattr(x, "fields") and id(x.fields) in fa:
+            out.append("fields of %r" % (n,))
+    return out
+
+
+def caller_mutates(obj, step):
+    """the caller edits a result it was given (its own copy, as far as the caller can know)"""
+    from rig.machine_control.struct_file import Struct, StructField
+    how = step["how"]
+    sv = obj.get(b"sv")
+    if how in ("defaults", "all") and sv is not None:
+        try:
+            sv.update_default_values(**{str(step["field"]): step["value"]})
+        except KeyError:
+            pass
+    if how in ("fields", "all") and sv is not None:
+        sv.fields[b"zz_caller"] = StructField(b"B", 0, b"%d", step["value"], 1)
+        for k in list(sv.fields)[:1]:
+            sv.fields.pop(k)
+    if how in ("attrs", "all") and sv is not None:
+        sv.size += 4
+        sv.base ^= 0x10
+    if how in ("attrs", "fields", "all"):
+        for k in [k for k in list(obj) if k != b"sv"][:1]:
+            obj[k].size += 4
+            obj[k].fields[b"zz_caller"] = StructField(b"B", 0, b"%d", step["value"], 1)
+    if how in ("dict", "all"):
+        for k in [k for k in list(obj) if k != b"sv"][:1]:
+            del obj[k]
+        obj[b"zz_caller"] = Struct(b"zz_caller", 4, 0)
+        if how == "all":
+            obj[b"sv"] = Struct(b"sv", 1, 2)
 
 
 def classify(e):
@@ -298,9 +413,13 @@ def classify(e):
 
 
 def run_impl(case):
-    """Run one history on the real code.  Returns (outcomes, final caller dicts, other-structs ok flags)."""
+    """Run one history on the real code.  Returns (outcomes, final caller dicts, kept) where kept =
+    {"late": [...], "shared": [...], "aux": [...], "rechecks": n}: every returned struct dictionary is
+    KEPT and compared with its own first snapshot after every later boot and every caller step."""
+    import rig.machine_control.struct_file as sf_mod
     import rig.machine_control.boot as boot_mod
-    importlib.reload(boot_mod)          # fresh function objects = fresh process state for `boot`
+    importlib.reload(sf_mod)            # fresh function objects = fresh process state
+    importlib.reload(boot_mod)
     log = []
     ftime = FakeTime(log)
     real_socket, real_time = boot_mod.socket, boot_mod.time
@@ -309,6 +428,39 @@ def run_impl(case):
     store = [dict((k, v) for k, v in d) for d in case["store"]]
     outcomes = []
     mcs = {}
+    results = []        # kept results of boot(): {"call", "obj", "first", "released"}
+    aux = []            # other struct dictionaries alive in the process: {"what", "obj", "first", "want"}
+    kept = {"late": [], "shared": [], "aux": [], "rechecks": 0}
+    alive = []
+
+    def recheck(label):
+        for r in results:
+            if r["released"]:
+                continue
+            kept["rechecks"] += 1
+            now = snapshot(r["obj"])
+            if now != r["first"] and not any(l["call"] == r["call"] and l["snap"] == now for l in kept["late"]):
+                kept["late"].append({"call": r["call"], "after": label, "snap": now})
+        for x in aux:
+            kept["rechecks"] += 1
+            now = snapshot(x["obj"])
+            if now != x["first"] and not x.get("reported"):
+                x["reported"] = True
+                kept["aux"].append("%s changed after %s" % (x["what"], label))
+
+    def keep_aux(what, obj, table):
+        first = snapshot(obj)
+        aux.append({"what": what, "obj": obj, "first": first})
+        want = expected_structs(table)
+        if first != want:
+            kept["aux"].append("%s does not equal the independent parse of its struct file" % what)
+
+    def new_controller(host, port):
+        from rig.machine_control.machine_controller import MachineController
+        mc = MachineController(host) if port is None else MachineController(host, boot_port=port)
+        alive.append(mc)
+        keep_aux("structs of MachineController(%r)" % host, mc.structs, None)
+        return mc
     try:
         for i, c in enumerate(case["calls"]):
             del log[:]
@@ -328,11 +480,10 @@ def run_impl(case):
                 kw[k] = v
             try:
                 if c["via"] == "controller":
-                    from rig.machine_control.machine_controller import MachineController
                     key = (c["host"], c["port"])
                     if key not in mcs:
-                        mcs[key] = (MachineController(c["host"]) if c["port"] is None
-                                    else MachineController(c["host"], boot_port=c["port"]))
+                        mcs[key] = new_controller(c["host"], c["port"])
+                        recheck("constructing the MachineController used by call %d" % i)
                     mc = mcs[key]
                     sent = mc.boot(only_if_needed=False, check_booted=False, **kw)
                     structs = mc.structs
@@ -342,23 +493,57 @@ def run_impl(case):
                         kw["boot_port"] = c["port"]
                     structs = boot_mod.boot(c["host"], **kw)
                     extra = []
-                res = {"ok": canon_struct(structs[b"sv"])}
-                others = sorted((n.decode("latin-1"), s.size, s.base, canon_struct(s))
-                                for n, s in structs.items() if n != b"sv")
-                svmeta = [structs[b"sv"].size, structs[b"sv"].base]
+                first = snapshot(structs)
+                if "broken" in first or first["sv"] is None:
+                    raise TypeError("boot() returned something that is not {name: Struct} with an sv entry: %r" % (first,))
+                res = {"ok": first["sv"]}
+                others, svmeta = first["others"], first["svmeta"]
+                for r in results:
+                    if not r["released"]:
+                        sh_ = shared_objects(r["obj"], structs)
+                        if sh_:
+                            kept["shared"].append("results of call %d and call %d share %s" % (r["call"], i, ", ".join(sh_)))
+                results.append({"call": i, "obj": structs, "first": first, "released": False})
             except Exception as e:          # noqa
                 res, others, svmeta, extra = classify(e), None, None, []
             outcomes.append({"events": [list(x) for x in log] + extra, "result": res,
                              "others": others, "svmeta": svmeta})
+            recheck("call %d" % i)
+            for n_step, st in enumerate(c.get("after", [])):
+                label = "step %d after call %d (%s)" % (n_step, i, st["do"])
+                if st["do"] == "controller":
+                    new_controller(st["host"], None)
+                elif st["do"] == "read_struct":
+                    text = (struct_text(st["table"], random.Random(n_step)) if st["table"] is not None else
+                            open(os.path.join(os.path.dirname(sf_mod.__file__), "..", "boot", "sark.struct"), "rb").read())
+                    keep_aux("result of read_struct_file in " + label, sf_mod.read_struct_file(text), st["table"])
+                elif st["do"] == "mutate":
+                    for r in results:
+                        if r["call"] == st["target"] and not r["released"]:
+                            r["released"] = True
+                            caller_mutates(r["obj"], st)
+                recheck(label)
     finally:
         boot_mod.socket, boot_mod.time = real_socket, real_time
         shutil.rmtree(tmp, ignore_errors=True)
-        for mc in mcs.values():
+        for mc in alive:
             try:
                 mc.connections[None].sock.close()
             except Exception:
                 pass
-    return outcomes, [[[k, v] for k, v in d.items()] for d in store]
+    kept["results"] = len(results)
+    return outcomes, [[[k, lean_value(v)] for k, v in d.items()] for d in store], kept
+
+
+def expected_structs(table):
+    """snapshot a parse of the bundled sark.struct (table None) or of struct_text(table) must give"""
+    default_table()
+    if table is None:
+        sv = [t for t in _cache["structs"] if t[0] == "sv"][0]
+        return {"sv": [list(f) for f in sv[3]], "svmeta": [sv[1], sv[2]],
+                "others": sorted([t[0], t[1], t[2], [list(f) for f in t[3]]] for t in _cache["structs"] if t[0] != "sv")}
+    return {"sv": [list(f) for f in table["fields"]], "svmeta": [table["size"], 0xf5007f00],
+            "others": [["other", 8, 0, [["x", "I", 0, "%d", 7, 1]]]]}
 
 
 # ------------------------------------------------------------------ checking
@@ -370,14 +555,14 @@ def own_opts(case, c):
             d[k] = v
     for k, v in c["kwargs"]:
         d[k] = v
-    return [[k, v] for k, v in d.items()]
+    return [[k, lean_value(v)] for k, v in d.items()]
 
 
 def lean_call(case, c, obs=None):
     default_table()
     j = {"host": c["host"], "port": c["port"] if c["port"] is not None else _cache["BOOT_PORT"],
          "image": image_bytes(c["image"]).hex(), "table": c["table"], "sv": c["sv"],
-         "kwargs": c["kwargs"], "t1": c["t1"], "t2": c["t2"], "opts": own_opts(case, c)}
+         "kwargs": lean_dict(c["kwargs"]), "t1": c["t1"], "t2": c["t2"], "opts": own_opts(case, c)}
     if obs is not None and "ok" in obs["result"]:
         j["datagrams"] = [e[1] for e in obs["events"] if e[0] in ("send", "sendto")]
         j["returned"] = obs["result"]["ok"]
@@ -390,11 +575,17 @@ def in_domain_static(c):
 
 
 def nontrivial(case):
-    """in the domain, and some call carries an option that a later call does not ask for"""
+    """in the domain, and some call carries an option that a later call does not ask for (a leak would be
+    visible) or a result obtained with options is read again after a later boot / caller step"""
     if not all(in_domain_static(c) for c in case["calls"]):
         return False
     keys = [set(k for k, _ in own_opts(case, c)) for c in case["calls"]]
-    return any(keys[i] - keys[j] for i in range(len(keys)) for j in range(i + 1, len(keys)))
+    n = len(keys)
+    if any(keys[i] - keys[j] for i in range(n) for j in range(i + 1, n)):
+        return True
+    return any(keys[i] and (i + 1 < n or any(st["do"] != "mutate" or st["target"] != i
+                                              for st in case["calls"][i].get("after", [])))
+               for i in range(n))
 
 
 def evaluate(ctx, cases):
@@ -403,15 +594,16 @@ def evaluate(ctx, cases):
     default_table()
     impl = [run_impl(case) for case in cases]
     reqs = []
-    for case, (outs, _) in zip(cases, impl):
-        reqs.append({"suite": "c20", "op": "history", "leaky": False, "store": case["store"],
+    for case, (outs, _, _) in zip(cases, impl):
+        reqs.append({"suite": "c20", "op": "history", "leaky": False, "store": [lean_dict(d) for d in case["store"]],
                      "calls": [lean_call(case, c, o) for c, o in zip(case["calls"], outs)]})
     replies = []
     for i in range(0, len(reqs), 25):
         replies += ctx.lean(reqs[i:i + 25])
     reports = []
     leaky_reqs = []
-    for case, (outs, store_after), req, rep in zip(cases, impl, reqs, replies):
+    late_reqs = []
+    for case, (outs, store_after, kept), req, rep in zip(cases, impl, reqs, replies):
         r = {"mismatches": [], "violations": [], "tags": [], "leakcheck": None}
         reports.append(r)
         if "proto_error" in rep:
@@ -436,12 +628,10 @@ def evaluate(ctx, cases):
                             min(len(o["events"]), len(m["events"])))
                 r["mismatches"].append(("c20.boot_call", "call %d: impl result %s, %d events; model result %s, %d events; first differing event %d" % (
                     k, str(res)[:150], len(o["events"]), str(m["result"])[:150], len(m["events"]), ev_i)))
-            if "ok" in res and c["table"] is None:
-                want = sorted((s[0], s[1], s[2], [list(f) for f in s[3]]) for s in _cache["structs"] if s[0] != "sv")
-                sv = [s for s in _cache["structs"] if s[0] == "sv"][0]
-                got = [(n, a, b, f) for n, a, b, f in o["others"]]
-                if got != want or o["svmeta"] != [sv[1], sv[2]]:
-                    r["mismatches"].append(("c20.struct_file", "call %d: returned structs differ from the independent parse of sark.struct" % k))
+            if "ok" in res:
+                want = expected_structs(c["table"])
+                if o["others"] != want["others"] or o["svmeta"] != want["svmeta"]:
+                    r["mismatches"].append(("c20.struct_file", "call %d: returned structs (other than sv's defaults) differ from the independent parse of the struct file of this call" % k))
             # ---- property oracle (Lean spec on the implementation's output)
             if sp and sp.get("domain") and sp.get("opts_valid"):
                 r["tags"].append("oracle_applied")
@@ -457,6 +647,22 @@ def evaluate(ctx, cases):
                         k, bad, own_opts(case, c))))
             elif sp and "ok" in res:
                 r["tags"].append("oracle_out_of_domain")
+        # ---- kept results: every returned dictionary re-read after every later boot / caller step
+        r["tags"] += ["kept_results"] * kept["results"] + ["kept_rechecks"] * kept["rechecks"]
+        for c in case["calls"]:
+            r["tags"] += ["step_" + st["do"] for st in c.get("after", [])]
+        for what in kept["shared"]:
+            r["mismatches"].append(("c20.shared_objects", what))
+        for what in kept["aux"]:
+            r["mismatches"].append(("c20.other_structs", what))
+        for l in kept["late"]:
+            k = l["call"]
+            c, sp, first = case["calls"][k], rep["specs"][k], outs[k]
+            r["mismatches"].append(("c20.kept_result", "the result returned by call %d reads differently after %s" % (k, l["after"])))
+            applicable = bool(sp and sp.get("domain") and sp.get("opts_valid") and sp.get("all"))
+            j = lean_call(case, c)
+            j.update(suite="c20", op="retcheck", image="", returned=(l["snap"].get("sv") or []))
+            late_reqs.append((r, k, l, first, applicable, j))
         if store_after != rep["state"]["store"]:
             differs = True
             r["mismatches"].append(("c20.caller_dict", "caller dictionaries after the history: impl %s model %s" % (
@@ -466,12 +672,26 @@ def evaluate(ctx, cases):
             lr = dict(req)
             lr["leaky"] = True
             leaky_reqs.append((lr, outs, store_after))
+    if late_reqs:
+        for (r, k, l, first, applicable, j), ans in zip(late_reqs, ctx.lean([x[5] for x in late_reqs])):
+            if applicable and ans.get("returned") is False:
+                now, was = l["snap"].get("sv"), first["result"]["ok"]
+                byname = {f[0]: f for f in (now or [])}
+                diff = "the sv entry is gone" if now is None else next(
+                    (("sv.%s is no longer described" % b[0]) if b[0] not in byname else
+                     ("sv.%s is now described as %r (pack %s at offset %d) but %r (pack %s at offset %d) was sent" % (
+                         b[0], byname[b[0]][4], byname[b[0]][1], byname[b[0]][2], b[4], b[1], b[2]))
+                     for b in was if byname.get(b[0]) != b), "fields were added or reordered")
+                r["violations"].append(("kept-result-changed",
+                                        "the struct definitions returned by call %d were correct right after that boot but no longer describe what "
+                                        "was sent to that board after %s: %s (Lean returnedOK fails on the kept result; options of call %d: %s)" % (
+                                            k, l["after"], diff, k, j["opts"])))
     if leaky_reqs:
         lreps = ctx.lean([x[0] for x in leaky_reqs])
         for r in reports:
             if r["leakcheck"] is None:
                 continue
-            lr, outs, store_after = leaky_reqs[r["leakcheck"]]
+            lr, outs, store_after = leaky_reqs[r["leakcheck"]]   # noqa
             rep = lreps[r["leakcheck"]]
             same = "outcomes" in rep and store_after == rep["state"]["store"] and all(
                 o["events"] == m["events"] and {k: v for k, v in o["result"].items() if k != "detail"} == m["result"]
@@ -509,10 +729,16 @@ def shrink(ctx, case, key):
     while changed and budget[0] > 0:
         changed = False
         for i in range(len(cur["calls"])):
-            cand = {"store": cur["store"], "calls": cur["calls"][:i] + cur["calls"][i + 1:]}
+            cand = drop_call(cur, i)
             if cand["calls"] and attempt(cand):
                 cur, changed = cand, True
                 break
+    for i in range(len(cur["calls"])):
+        for j in range(len(cur["calls"][i].get("after", [])) - 1, -1, -1):
+            cand = {"store": cur["store"], "calls": [dict(x) for x in cur["calls"]]}
+            cand["calls"][i]["after"] = cur["calls"][i]["after"][:j] + cur["calls"][i]["after"][j + 1:]
+            if attempt(cand):
+                cur = cand
     for i, c in enumerate(cur["calls"]):
         if c["image"].get("len", 99999) > 512:
             cand = {"store": cur["store"], "calls": [dict(x) for x in cur["calls"]]}
@@ -527,6 +753,26 @@ def shrink(ctx, case, key):
                 cur = cand
                 c = cur["calls"][i]
     return cur
+
+
+def drop_call(case, i):
+    """the history without call i (and without its steps); caller edits keep pointing at the same results"""
+    calls = []
+    for k, c in enumerate(case["calls"]):
+        if k == i:
+            continue
+        c = dict(c)
+        steps = []
+        for st in c.get("after", []):
+            if st["do"] == "mutate":
+                if st["target"] == i:
+                    continue
+                if st["target"] > i:
+                    st = dict(st, target=st["target"] - 1)
+            steps.append(st)
+        c["after"] = steps
+        calls.append(c)
+    return {"store": case["store"], "calls": calls}
 
 
 class _Quiet(object):
@@ -563,7 +809,8 @@ def prepare(ctx):
     ctx.assumptions += [
         "struct.pack, bytearray slice assignment, dict ordering and keyword passing behave as documented by CPython",
         "the oracle is applied to calls in the domain: 4 | len(image), 512 <= len(image) < 32 KiB, well-formed struct table, options naming fields with fitting values; elsewhere only model = code is checked",
-        "each history starts from a freshly reloaded rig.machine_control.boot (state of a new process)",
+        "each history starts from freshly reloaded rig.machine_control.struct_file and .boot modules (state of a new process)",
+        "a kept result is judged by the Lean predicate returnedOK with the options of the call that returned it; the caller edits only results it will not consult again",
         "UDP delivery and real time are outside the model: the datagrams handed to the socket and the sleeps requested are what is observed"]
     default_table()
     c = ctx.lean([{"suite": "c20", "op": "consts"}, {"suite": "c20", "op": "structs"}])
@@ -592,8 +839,26 @@ def fixed_cases():
     b = dict(base, host="b")
     c = dict(base, host="a", sv=0, kwargs=[["hw_ver", 5]])
     d = dict(base, host="b", sv=0)
+    # kept results: boot a with options, keep what it returned, then boot b / build a controller / parse another
+    # struct file / edit b's result - a's result must still describe what was sent to a
+    small = {"size": 128, "fields": [["hw_ver", "B", 0, "%d", 7, 1], ["unix_time", "I", 4, "%08x", 0, 1],
+                                     ["boot_sig", "I", 8, "%08x", 0, 1], ["root_chip", "B", 12, "%d", 0, 1],
+                                     ["led0", "I", 16, "%08x", 5, 1]]}
+    e = dict(base, host="a", kwargs=[["hw_ver", 3], ["led0", 0x502], ["cpu_clk", 150]],
+             after=[{"do": "controller", "host": "127.0.0.1"}, {"do": "read_struct", "table": small}])
+    f = dict(base, host="b", after=[{"do": "mutate", "target": 1, "how": "all", "field": "hw_ver", "value": 9}])
+    g = dict(base, host="127.0.0.2", via="controller", kwargs=[["hw_ver", 5]])
+    h = dict(base, host="c", table=small, kwargs=[["led0", 0]],
+             after=[{"do": "mutate", "target": 2, "how": "defaults", "field": "led0", "value": 77}])
+    # falsy options for variables whose default is not zero, as keyword, via sv_overrides and via both
+    z1 = dict(base, host="a", kwargs=[["soft_wdog", 0], ["led0", 0], ["cpu_clk", 0]])
+    z2 = dict(base, host="b", sv=0)
+    z3 = dict(base, host="c", sv=1, kwargs=[["link_en", 0], ["num_buf", False]])
     return [{"store": [], "calls": [a, b]}, {"store": [[["led1", 9]]], "calls": [c, d]},
-            {"store": [], "calls": [dict(base, host="a", image={"kind": "default"}, via="function")]}]
+            {"store": [], "calls": [dict(base, host="a", image={"kind": "default"}, via="function")]},
+            {"store": [], "calls": [e, f]}, {"store": [], "calls": [g, e, h, f]},
+            {"store": [[["soft_wdog", 0], ["boot_delay", 0], ["led0", False]], [["link_en", 63], ["iobuf_size", 0]]],
+             "calls": [z1, z2, z3]}]
 
 
 def load_corpus():
